@@ -59,6 +59,12 @@ TABLE = [
      "with definitions re-implemented in /verif on generated inputs (ties, samples on boundaries, touching intervals); equality "
      "must be reflexive, symmetric and detect every single-field perturbation; validate() must be False exactly for injected corruptions.",
      _NOTE, "DESIGN.md section 3 C15"),
+    ("C01", "Hypothesis generated textgrids through save/open in all 16 format x flag combinations; round-trip and fixed-point oracles",
+     "Generated textgrids (rich label/name alphabet incl. format tokens; dyadic, decimal, 17-digit, near-integer, tiny and huge "
+     "timestamps) are saved and reopened in every format/flag combination; the result must equal the expectation derived from "
+     "the statement with bit-identical timestamps (or the allowed integer rounding) and the re-saved text must be identical.",
+     _NOTE + " One known finding (keyword inside a name/label derails the text readers) is excluded by a case-level signature and reported as KNOWN-FINDING.",
+     "DESIGN.md section 3 C01"),
 ]
 
 PENDING = {}
